@@ -37,6 +37,14 @@ Proof. intros. apply mon_order_props. apply ref_mon_ok. Qed.
 Theorem exec_order : forall fuel hs path, (length hs < fuel)%nat -> order_props (etrace fuel hs path).
 Proof. intros. rewrite etrace_rtrace by auto. apply ref_order. Qed.
 
+Theorem ref_enters_order : forall hs path,
+  enters (rtrace hs path) = zseq 0 (length (enters (rtrace hs path))) /\
+  StronglySorted Z.lt (enters (rtrace hs path)).
+Proof. intros hs path. destruct (ref_order hs path) as (H1 & H2 & _). split; assumption. Qed.
+
+Theorem ref_nesting : forall hs path, StronglySorted (fun a b => b <= a) (nextrets (rtrace hs path)).
+Proof. intros hs path. destruct (ref_order hs path) as (_ & _ & H & _). exact H. Qed.
+
 (* an effective Next (one that entered a handler) happens at most once per handler:
    after handler i's first return from Next, nobody is entered any more *)
 Theorem ref_next_once : forall hs path t1 i t2,
